@@ -55,6 +55,7 @@ func init() {
 			{ID: "C08-R30", Title: "entries made on the way are withdrawn with their cause (shared with C05-R14)", Floor: 2, Run: entriesMadeOnTheWayAreWithdrawnWithTheirCause},
 			{ID: "C08-R31", Title: "map lookups use the map's own keys", Floor: 1, Run: mapLookupsUseTheMapsOwnKeys},
 			{ID: "C08-R32", Title: "Go values of script objects are not silently nil", Floor: 1, Run: goValuesOfScriptObjectsAreNotSilentlyNil},
+			{ID: "C08-R33", Title: "defaults do not replace what the host gave", Floor: 1, Run: defaultsDoNotReplaceWhatTheHostGave},
 		},
 	})
 }
